@@ -476,10 +476,55 @@ pub fn repeat_case(elem: usize, k: usize) -> (Entry, u8, Vec<u8>, &'static str) 
     }
 }
 
+/// A special byte at one lane of every P-byte block (P = 8, 16, 32), repeated exactly k times
+/// (k around 2^8 and 2^9): per-lane counters and per-lane folds of word-at-a-time code wrap or
+/// cancel exactly there. Fields: target (0xFF: invalid UTF-8, must be rejected; 0xC3 0xA9 pairs
+/// are elsewhere), header value and reason (HTAB / obs-text: legal; DEL: illegal).
+pub fn lane_count_phase<F>(r: &Runner, sub: &'static str, accept: &(dyn Fn(Entry, u8) -> bool + Sync), f: F)
+where
+    F: Fn(&Runner, &mut Ctx, &mut Local, &CaseRec) -> Result<(), Violation> + Sync,
+{
+    if sub == "prefix" || sub == "partial-prefixes" {
+        return;
+    }
+    const KS: [usize; 6] = [255, 256, 257, 511, 512, 513];
+    const SPECIALS: [u8; 5] = [0xff, 0x80, 0x09, 0x7f, b'_'];
+    // (period, lane) pairs: every lane of an 8-byte word, a few of 16 / 32
+    let mut pl: Vec<(usize, usize)> = (0..8).map(|l| (8usize, l)).collect();
+    pl.extend_from_slice(&[(16, 0), (16, 9), (16, 15), (32, 0), (32, 17), (32, 31)]);
+    let total = (pl.len() * KS.len() * SPECIALS.len() * 3) as u64;
+    r.par_enum("a special byte (0xFF, 0x80, HTAB, DEL, '_') at one lane of every 8 / 16 / 32-byte block, repeated exactly k times for k in {255,256,257,511,512,513}, in a target, a header value and a reason", total, |ctx, l, idx| {
+        let mut x = idx as usize;
+        let field = x % 3;
+        x /= 3;
+        let sp = SPECIALS[x % SPECIALS.len()];
+        x /= SPECIALS.len();
+        let k = KS[x % KS.len()];
+        let (p, lane) = pl[x / KS.len()];
+        let mut body = Vec::with_capacity(p * k + 8);
+        for _ in 0..k {
+            for i in 0..p {
+                body.push(if i == lane { sp } else { b'a' + (i % 7) as u8 });
+            }
+        }
+        let (entry, buf): (Entry, Vec<u8>) = match field {
+            0 => (Entry::ReqParse, [&b"GET /"[..], &body, b" HTTP/1.1\r\nA: b\r\n\r\n"].concat()),
+            1 => (Entry::Headers, [&b"N: v"[..], &body, b"\r\nA: b\r\n\r\n"].concat()),
+            _ => (Entry::RespParse, [&b"HTTP/1.1 200 r"[..], &body, b"\r\nA: b\r\n\r\n"].concat()),
+        };
+        if !accept(entry, 0) {
+            return Ok(());
+        }
+        let rec = CaseRec::new(sub, entry, 0, 8, buf);
+        f(r, ctx, l, &rec)
+    });
+}
+
 pub fn repeat_boundary_phase<F>(r: &Runner, sub: &'static str, accept: &(dyn Fn(Entry, u8) -> bool + Sync), f: F)
 where
     F: Fn(&Runner, &mut Ctx, &mut Local, &CaseRec) -> Result<(), Violation> + Sync,
 {
+    lane_count_phase(r, sub, accept, &f);
     let prefix_check = sub == "prefix" || sub == "partial-prefixes";
     let nks = if prefix_check { 4 } else { REPEAT_KS.len() };
     let total = (N_REPEAT_ELEMS * nks * 2) as u64;
